@@ -1,4 +1,4 @@
-//@ unit props=C03,C14,C17 tier=quick kind=unbounded timeout=120 funcs="Context::fill_interleaved; Context::fill_le_bytes; Context::total_samples" note="md5::Md5 is an external type whose `update` appends its argument to a ghost byte sequence (assumption A-deps: md-5 hashes what it is fed); i32::to_le_bytes through an external_body wrapper whose spec is proved by Kani unit arrayutils::verif::le_bytes_spec"
+//@ unit props=C03,C14,C17 tier=quick kind=unbounded timeout=120 funcs="Context::new; Context::fill_interleaved; Context::fill_le_bytes; Context::total_samples" note="md5::Md5 is an external type whose `update` appends its argument to a ghost byte sequence (assumption A-deps: md-5 hashes what it is fed); i32::to_le_bytes through an external_body wrapper whose spec is proved by Kani unit arrayutils::verif::le_bytes_spec"
 // C03 / C14 / C17: the MD5 / sample-count context.
 //   fill_interleaved feeds EXACTLY the channel-interleaved little-endian bytes of the byte-rounded
 //   width, for any number of samples (loop invariant over the real loop), advances the sample and
@@ -82,7 +82,33 @@ pub fn i32_to_le_bytes(v: i32) -> (r: [u8; 4])
     v.to_le_bytes()
 }
 
+impl Md5 {
+    #[verifier::external_body]
+    pub fn new() -> (r: Self)
+        ensures
+            r.fed().len() == 0,
+    {
+        unimplemented!()
+    }
+}
+
 impl Context {
+
+//@extract file=src/source.rs impl="impl Context {" fn="pub fn new"
+//@subst `md5: md5::Md5::new(),` => `md5: Md5::new(),`
+//@subst `-> Self {` => `-> (r: Self) {`
+//@sig
+//|     requires
+//|         bits_per_sample <= 32,
+//|     ensures
+//|         // the byte-rounded sample width (C03: the MD5 is taken over samples of that many bytes)
+//|         r.bytes_per_sample * 8 >= bits_per_sample,
+//|         r.bytes_per_sample * 8 < bits_per_sample + 8,
+//|         r.channels == channels,
+//|         r.sample_count == 0,
+//|         r.frame_count == 0,
+//|         r.md5.fed().len() == 0,
+//@end
 
 //@extract file=src/source.rs impl="impl Fill for Context" fn="fn fill_interleaved"
 //@subst `v.to_le_bytes()` => `i32_to_le_bytes(*v)`
